@@ -534,6 +534,78 @@ def compaction_timestamp_legacy_only(ctx, prog, rid):
               'reachable for an entry with a sequence number: writes acknowledged in the same second as the snapshot count as covered and their segments are deleted'))
 
 
+
+def post_image_agreement(ctx, prog, rid, rec):
+    """C02.R6 (shared with C01 as C01.R15): what a mutator logs is what it installs; replay installs the logged value as is."""
+    um = ctx.body(rid, 'HnswBackend::update_metadata')
+    if um is not None:
+        uv = flow.Origin(um, stop_at_vars=True)
+        uf = flow.Origin(um)
+        ent = [(i_, st['rv']) for i_, blk in enumerate(um.blocks) for st in blk['s'] if st.get('rv', {}).get('k') == 'agg' and st['rv'].get('adt', '').endswith('persistence::WalEntry')]
+        logged = [flow.render(uv.of_operand(rv['ops'][rv['fields'].index('metadata')], 0, frozenset({-1}))) for _, rv in ent]
+        applied = []
+        for i_, blk in enumerate(um.blocks):
+            for st in blk['s']:
+                if 'rv' in st and st['pl'].get('p') == ['*'] and 'DocumentStore.metadata' in flow.render(uf.of_local(st['pl']['l'])):
+                    applied.append((i_, flow.render(uv.of_rvalue(st['rv'], 0, frozenset({-1})))))
+        same = len(set(logged)) == 1 and bool(applied) and all(a == logged[0] for _, a in applied) and re.match(r'^var:\w+$', logged[0] or '') is not None
+        dom = False
+        if same:
+            ls = um.var_local(logged[0].split(':')[1])
+            defs = [d for l_ in ls for d in um.defs.get(l_, [])]
+            # the merge is an if/else: the entry is built only after one of the definitions ran
+            r_nodef = um.reach([0], avoid_blocks=sorted(set(d[0] for d in defs)))
+            dom = bool(defs) and all(e_[0] not in r_nodef for e_ in ent)
+        ctx.inst(rid, um.short, 'logged metadata = the map assigned to store.metadata[id], computed before the entry is built', same and dom,
+                 'WalEntry.metadata = %s; store.metadata[id] := %s; defined before the entry: %s' % (logged, sorted(set(a for _, a in applied)), dom))
+    ib = ctx.body(rid, 'HnswBackend::insert')
+    if ib is not None:
+        iv = flow.Origin(ib, stop_at_vars=True)
+        iff = flow.Origin(ib)
+        ent = [(i_, st['rv']) for i_, blk in enumerate(ib.blocks) for st in blk['s'] if st.get('rv', {}).get('k') == 'agg' and st['rv'].get('adt', '').endswith('persistence::WalEntry')
+               and 'WalOp::Insert' in flow.render(iv.of_operand(st['rv']['ops'][st['rv']['fields'].index('op')], 0, frozenset({-1})))]
+        if len(ent) != 1:
+            ctx.missing(rid, 'HnswBackend::insert: the Insert log entry (found %d)' % len(ent))
+        else:
+            eb, rv = ent[0]
+            for fld, store_field in (('embedding', 'DocumentStore.embeddings'), ('metadata', 'DocumentStore.metadata')):
+                lv = flow.render(iv.of_operand(rv['ops'][rv['fields'].index(fld)], 0, frozenset({-1})))
+                m_ = re.match(r'^var:(\w+)$', lv)
+                src = None
+                clone_bb = None
+                if m_:
+                    for l_ in ib.var_local(m_.group(1)):
+                        for d in ib.defs.get(l_, []):
+                            if d[2] == 'call' and d[3].callee and d[3].callee.endswith('Clone>::clone'):
+                                src = flow.render(iv.of_operand(d[3].args[0], 0, frozenset({-1})))
+                                clone_bb = d[0]
+                pushes = [c for c in ib.calls if c.callee and c.callee.endswith('Vec::push') and flow.render(iff.of_operand(c.args[0])).endswith(store_field)]
+                pv = [flow.render(iv.of_operand(c.args[1], 0, frozenset({-1}))) for c in pushes]
+                pv_n = [re.sub(r'^mem::take\((.*)\)$', r'\1', x) for x in pv]
+                # in-place changes of the source variable (calls that take it by &mut) all happen before the copy
+                muts = [c for c in ib.calls if c.callee and not c.exp and src and any(flow.render(iv.of_operand(a, 0, frozenset({-1}))) == src and ib.locals[a['pl']['l']].startswith('&mut') for a in c.args if a.get('k') in ('cp', 'mv') and not a['pl'].get('p'))
+                        and not c.callee.endswith('Clone>::clone')]
+                late = [c for c in muts if clone_bb is not None and c.bb in ib.reach([clone_bb]) and c not in pushes and 'mem::take' not in c.callee]
+                ok = src is not None and len(pushes) == 1 and pv_n == [src] and not late and clone_bb is not None and ib.dominates(clone_bb, eb)
+                ctx.inst(rid, ib.short, 'logged %s is a copy of the %s that is pushed, taken after its last in-place change' % (fld, fld), ok,
+                         'WalEntry.%s = %s = clone(%s); pushed: %s; in-place changes after the copy: %s' % (fld, lv, src, pv, [flow.short(c.callee) for c in late]))
+    if rec is not None:
+        rv_ = flow.Origin(rec, stop_at_vars=True)
+        rf_ = flow.Origin(rec)
+        asg = []
+        for i_, blk in enumerate(rec.blocks):
+            for st in blk['s']:
+                if 'rv' in st and st['pl'].get('p') == ['*'] and 'HashMap<alloc::string::String, alloc::string::String' in rec.locals[st['pl']['l']] and rec.locals[st['pl']['l']].startswith('&mut'):
+                    asg.append((i_, flow.render(rv_.of_rvalue(st['rv'], 0, frozenset({-1})))))
+        um_edges = [(i_, tg) for i_, blk in enumerate(rec.blocks) if blk['t']['k'] == 'switch' and i_ in rec.live_blocks() for tg, p in flow.switch_edge_predicates(rec, i_, rv_)
+                    if re.match(r'^variant\(var:entry→WalEntry\.op\) = UpdateMetadata$', p)]
+        arm = set()
+        for i_, tg in um_edges:
+            arm |= {x for x in (rec.reach([tg]) | {tg}) if rec.dominates(tg, x)}
+        asg = [(i_, a) for i_, a in asg if i_ in arm]
+        ctx.inst(rid, rec.short, 'replay of UpdateMetadata installs the logged map as is (full replacement)', bool(um_edges) and bool(asg) and all(a == 'var:entry→WalEntry.metadata' for _, a in asg),
+                 'assignments to the document\'s metadata during replay: %s' % sorted(set(a for _, a in asg)))
+
 def run(ctx, prog):
     ctx.not_decided = ['equality of recovered and live state over histories × configurations',
                        'bit-exact idempotence of normalisation (floating point)']
@@ -828,74 +900,7 @@ def run(ctx, prog):
                        'as is — update_metadata logs the map it assigns to store.metadata[id] (the merged map, not the caller\'s delta; replay does a full '
                        'replacement); insert logs a copy of the vector taken after the last in-place change (normalisation) and pushes that same vector, and '
                        'logs / pushes the same metadata map')
-    um = ctx.body('C02.R6', 'HnswBackend::update_metadata')
-    if um is not None:
-        uv = flow.Origin(um, stop_at_vars=True)
-        uf = flow.Origin(um)
-        ent = [(i_, st['rv']) for i_, blk in enumerate(um.blocks) for st in blk['s'] if st.get('rv', {}).get('k') == 'agg' and st['rv'].get('adt', '').endswith('persistence::WalEntry')]
-        logged = [flow.render(uv.of_operand(rv['ops'][rv['fields'].index('metadata')], 0, frozenset({-1}))) for _, rv in ent]
-        applied = []
-        for i_, blk in enumerate(um.blocks):
-            for st in blk['s']:
-                if 'rv' in st and st['pl'].get('p') == ['*'] and 'DocumentStore.metadata' in flow.render(uf.of_local(st['pl']['l'])):
-                    applied.append((i_, flow.render(uv.of_rvalue(st['rv'], 0, frozenset({-1})))))
-        same = len(set(logged)) == 1 and bool(applied) and all(a == logged[0] for _, a in applied) and re.match(r'^var:\w+$', logged[0] or '') is not None
-        dom = False
-        if same:
-            ls = um.var_local(logged[0].split(':')[1])
-            defs = [d for l_ in ls for d in um.defs.get(l_, [])]
-            # the merge is an if/else: the entry is built only after one of the definitions ran
-            r_nodef = um.reach([0], avoid_blocks=sorted(set(d[0] for d in defs)))
-            dom = bool(defs) and all(e_[0] not in r_nodef for e_ in ent)
-        ctx.inst('C02.R6', um.short, 'logged metadata = the map assigned to store.metadata[id], computed before the entry is built', same and dom,
-                 'WalEntry.metadata = %s; store.metadata[id] := %s; defined before the entry: %s' % (logged, sorted(set(a for _, a in applied)), dom))
-    ib = ctx.body('C02.R6', 'HnswBackend::insert')
-    if ib is not None:
-        iv = flow.Origin(ib, stop_at_vars=True)
-        iff = flow.Origin(ib)
-        ent = [(i_, st['rv']) for i_, blk in enumerate(ib.blocks) for st in blk['s'] if st.get('rv', {}).get('k') == 'agg' and st['rv'].get('adt', '').endswith('persistence::WalEntry')
-               and 'WalOp::Insert' in flow.render(iv.of_operand(st['rv']['ops'][st['rv']['fields'].index('op')], 0, frozenset({-1})))]
-        if len(ent) != 1:
-            ctx.missing('C02.R6', 'HnswBackend::insert: the Insert log entry (found %d)' % len(ent))
-        else:
-            eb, rv = ent[0]
-            for fld, store_field in (('embedding', 'DocumentStore.embeddings'), ('metadata', 'DocumentStore.metadata')):
-                lv = flow.render(iv.of_operand(rv['ops'][rv['fields'].index(fld)], 0, frozenset({-1})))
-                m_ = re.match(r'^var:(\w+)$', lv)
-                src = None
-                clone_bb = None
-                if m_:
-                    for l_ in ib.var_local(m_.group(1)):
-                        for d in ib.defs.get(l_, []):
-                            if d[2] == 'call' and d[3].callee and d[3].callee.endswith('Clone>::clone'):
-                                src = flow.render(iv.of_operand(d[3].args[0], 0, frozenset({-1})))
-                                clone_bb = d[0]
-                pushes = [c for c in ib.calls if c.callee and c.callee.endswith('Vec::push') and flow.render(iff.of_operand(c.args[0])).endswith(store_field)]
-                pv = [flow.render(iv.of_operand(c.args[1], 0, frozenset({-1}))) for c in pushes]
-                pv_n = [re.sub(r'^mem::take\((.*)\)$', r'\1', x) for x in pv]
-                # in-place changes of the source variable (calls that take it by &mut) all happen before the copy
-                muts = [c for c in ib.calls if c.callee and not c.exp and src and any(flow.render(iv.of_operand(a, 0, frozenset({-1}))) == src and ib.locals[a['pl']['l']].startswith('&mut') for a in c.args if a.get('k') in ('cp', 'mv') and not a['pl'].get('p'))
-                        and not c.callee.endswith('Clone>::clone')]
-                late = [c for c in muts if clone_bb is not None and c.bb in ib.reach([clone_bb]) and c not in pushes and 'mem::take' not in c.callee]
-                ok = src is not None and len(pushes) == 1 and pv_n == [src] and not late and clone_bb is not None and ib.dominates(clone_bb, eb)
-                ctx.inst('C02.R6', ib.short, 'logged %s is a copy of the %s that is pushed, taken after its last in-place change' % (fld, fld), ok,
-                         'WalEntry.%s = %s = clone(%s); pushed: %s; in-place changes after the copy: %s' % (fld, lv, src, pv, [flow.short(c.callee) for c in late]))
-    if rec is not None:
-        rv_ = flow.Origin(rec, stop_at_vars=True)
-        rf_ = flow.Origin(rec)
-        asg = []
-        for i_, blk in enumerate(rec.blocks):
-            for st in blk['s']:
-                if 'rv' in st and st['pl'].get('p') == ['*'] and 'HashMap<alloc::string::String, alloc::string::String' in rec.locals[st['pl']['l']] and rec.locals[st['pl']['l']].startswith('&mut'):
-                    asg.append((i_, flow.render(rv_.of_rvalue(st['rv'], 0, frozenset({-1})))))
-        um_edges = [(i_, tg) for i_, blk in enumerate(rec.blocks) if blk['t']['k'] == 'switch' and i_ in rec.live_blocks() for tg, p in flow.switch_edge_predicates(rec, i_, rv_)
-                    if re.match(r'^variant\(var:entry→WalEntry\.op\) = UpdateMetadata$', p)]
-        arm = set()
-        for i_, tg in um_edges:
-            arm |= {x for x in (rec.reach([tg]) | {tg}) if rec.dominates(tg, x)}
-        asg = [(i_, a) for i_, a in asg if i_ in arm]
-        ctx.inst('C02.R6', rec.short, 'replay of UpdateMetadata installs the logged map as is (full replacement)', bool(um_edges) and bool(asg) and all(a == 'var:entry→WalEntry.metadata' for _, a in asg),
-                 'assignments to the document\'s metadata during replay: %s' % sorted(set(a for _, a in asg)))
+    post_image_agreement(ctx, prog, 'C02.R6', rec)
     # ------------------------------------------------------------------ R7 re-normalising a stored vector is the identity
     ctx.rule('C02.R7', 'the vector normaliser is applied once on insert (its output is logged and stored) and AGAIN to every recovered vector: bit-identity after restart '
                        'needs it to leave its own output alone — the in-range test of the squared norm must send EVERY normalising metric to the untouched return, so the '
